@@ -24,4 +24,6 @@ cdef class MulticastOutgoingQueue:
     @cython.locals(pending=AnswerGroup)
     cdef void _remove_answers_from_queue(self, cython.dict answers)
 
+    cpdef void async_remove_answers(self, cython.dict answers)
+
     cpdef void async_ready(self)
